@@ -48,6 +48,29 @@ func (m *Model) resolve(v ssa.Value, fr *frame) (ssa.Value, *frame) {
 				// bound directly to a value (rare: go/ssa captures by reference)
 				v, fr = bind, pfr
 				continue
+			case *ssa.FieldAddr:
+				// a field of a struct literal built by a caller (a command object such as
+				// removal{c: c, key: key}): what was stored into that field there
+				px, pfr := m.resolve(cell.X, fr)
+				if al, ok := px.(*ssa.Alloc); ok {
+					if sv := m.literalField(al, fieldOf(cell)); sv != nil {
+						v, fr = sv, pfr
+						continue
+					}
+					// a local that holds the struct an accessor returned (`dk := c.docKey(key)`)
+					if st := singleStore(al); st != nil {
+						sv, sfr := m.resolve(st.Val, pfr)
+						if ld, ok := sv.(*ssa.UnOp); ok && ld.Op == token.MUL {
+							if src, ok := ld.X.(*ssa.Alloc); ok {
+								if fv := m.literalField(src, fieldOf(cell)); fv != nil {
+									v, fr = fv, sfr
+									continue
+								}
+							}
+						}
+					}
+				}
+				return v, fr
 			default:
 				// load through a pointer value: *p where p resolves to a local cell (e.g. ifCas = &cas)
 				px, pfr := m.resolve(x.X, fr)
@@ -66,10 +89,70 @@ func (m *Model) resolve(v ssa.Value, fr *frame) (ssa.Value, *frame) {
 			}
 			v, fr = bind, pfr
 			continue
+		case *ssa.Call:
+			// a straight-line accessor of the package (`func (c *Collection) collectionID() CollectionID
+			// { return c.id }`): what it returns, in its own frame
+			if rv, rfr := m.accessorResult(x, 0, fr); rv != nil {
+				v, fr = rv, rfr
+				continue
+			}
+			return v, fr
+		case *ssa.Extract:
+			if call, ok := x.Tuple.(*ssa.Call); ok {
+				if rv, rfr := m.accessorResult(call, x.Index, fr); rv != nil {
+					v, fr = rv, rfr
+					continue
+				}
+			}
+			return v, fr
+		case *ssa.Field:
+			// a field of a struct VALUE that an accessor built (`c.docKey(key).collection`)
+			sv, sfr := m.resolve(x.X, fr)
+			if ld, ok := sv.(*ssa.UnOp); ok && ld.Op == token.MUL {
+				if al, ok := ld.X.(*ssa.Alloc); ok {
+					if fv := m.literalField(al, fieldOfField(x)); fv != nil {
+						v, fr = fv, sfr
+						continue
+					}
+				}
+			}
+			return v, fr
 		}
 		return v, fr
 	}
 	return v, fr
+}
+
+// accessorResult: result idx of a call to a package function that consists of a single basic
+// block ending in a return (no branches, hence no choice about what is returned).
+func (m *Model) accessorResult(call *ssa.Call, idx int, fr *frame) (ssa.Value, *frame) {
+	callee := call.Common().StaticCallee()
+	if callee == nil || !m.inPkg(callee) || len(callee.Blocks) != 1 || fr == nil || fr.depth > 6 {
+		return nil, nil
+	}
+	if call.Parent() != fr.fn {
+		return nil, nil
+	}
+	blk := callee.Blocks[0]
+	ret, ok := blk.Instrs[len(blk.Instrs)-1].(*ssa.Return)
+	if !ok || idx >= len(ret.Results) {
+		return nil, nil
+	}
+	for _, ins := range blk.Instrs {
+		switch ins.(type) {
+		case *ssa.Store, ssa.CallInstruction:
+			// anything with an effect (other than building the returned literal) disqualifies it
+			if st, isSt := ins.(*ssa.Store); isSt {
+				if fa, isFA := st.Addr.(*ssa.FieldAddr); isFA {
+					if al, isAl := fa.X.(*ssa.Alloc); isAl && al.Comment == "complit" {
+						continue
+					}
+				}
+			}
+			return nil, nil
+		}
+	}
+	return ret.Results[idx], fr.inline(call, callee)
 }
 
 // isReceiver reports whether v (in frame fr) is the receiver of the outermost enclosing
@@ -137,4 +220,56 @@ func (m *Model) describe(b Binding) string {
 		return c.String()
 	}
 	return rv.Name() + ":" + rv.Type().String()
+}
+
+// literalField: al is a struct literal; the value its construction stores into field f, provided
+// that is the only store to that field (of any object of the type) in the whole package.
+func (m *Model) literalField(al *ssa.Alloc, f *types.Var) ssa.Value {
+	if al.Referrers() == nil || f == nil {
+		return nil
+	}
+	var val ssa.Value
+	for _, ref := range *al.Referrers() {
+		fa, ok := ref.(*ssa.FieldAddr)
+		if !ok || fieldOf(fa) != f || fa.Referrers() == nil {
+			continue
+		}
+		for _, r2 := range *fa.Referrers() {
+			if st, ok := r2.(*ssa.Store); ok && st.Addr == ssa.Value(fa) {
+				if val != nil {
+					return nil
+				}
+				val = st.Val
+			}
+		}
+	}
+	if val == nil {
+		// `x := T{...}`: the literal is built in a temporary and copied into x as a whole
+		for _, ref := range *al.Referrers() {
+			if st, ok := ref.(*ssa.Store); ok && st.Addr == ssa.Value(al) {
+				if ld, ok := st.Val.(*ssa.UnOp); ok && ld.Op == token.MUL {
+					if src, ok := ld.X.(*ssa.Alloc); ok && src != al {
+						return m.literalField(src, f)
+					}
+				}
+			}
+		}
+		return nil
+	}
+	n := 0
+	for _, g := range m.Funcs {
+		for _, b := range g.Blocks {
+			for _, ins := range b.Instrs {
+				if st, ok := ins.(*ssa.Store); ok {
+					if fa, ok := st.Addr.(*ssa.FieldAddr); ok && fieldOf(fa) == f {
+						n++
+					}
+				}
+			}
+		}
+	}
+	if n != 1 {
+		return nil
+	}
+	return val
 }
